@@ -287,9 +287,11 @@ func (h *H) makeScPair(lenA, lenB int) scPair {
 // insiderForgeSc: a co-recipient decrypts with the genuine payload key and re-encrypts
 // modified plaintext, permuted chunk numbers or flipped final flags, reusing genuine signatures.
 func insiderForgeSc(r *SplitMix, p scPair) ([]byte, string) {
+	refHeaderOnly = true
 	o, err := refOpenSc(p.wireA, p.insiderSk, nil, nil)
+	refHeaderOnly = false
 	if err != nil {
-		fatal("insider cannot open the genuine signcrypted message: %v", err)
+		fatal("insider cannot open the header of the genuine signcrypted message: %v", err)
 	}
 	objs, _ := splitObjects(p.wireA)
 	hdrNode, _, _ := mpParse(objs[0])
@@ -371,7 +373,47 @@ func insiderForgeSc(r *SplitMix, p scPair) ([]byte, string) {
 	}
 }
 
+// insiderSwapSc: a co-recipient re-encrypts two genuine non-final chunks (with their genuine
+// signatures) at each other's position
+func insiderSwapSc(p scPair) []byte {
+	refHeaderOnly = true
+	o, err := refOpenSc(p.wireA, p.insiderSk, nil, nil)
+	refHeaderOnly = false
+	if err != nil {
+		fatal("insider cannot open the header of the genuine signcrypted message: %v", err)
+	}
+	objs, _ := splitObjects(p.wireA)
+	hdrNode, _, _ := mpParse(objs[0])
+	hh := sha(hdrNode.Bytes)
+	var att [][]byte
+	for n := 0; n < 2; n++ {
+		nd, _, _ := mpParse(objs[1+n])
+		a, ok := secretbox.Open(nil, nd.Arr[0].Bytes, hashNonce(hh, false, uint64(n)), k32(o.payloadKey))
+		if !ok {
+			fatal("insider cannot open packet %d", n)
+		}
+		att = append(att, a)
+	}
+	out := [][]byte{objs[0]}
+	for n := 0; n < 2; n++ {
+		ct := secretbox.Seal(nil, att[1-n], hashNonce(hh, false, uint64(n)), k32(o.payloadKey))
+		out = append(out, mpEnc(nArr(nBin(ct), nBool(false))))
+	}
+	out = append(out, objs[3:]...)
+	return joinObjects(out)
+}
+
 func genScOpenMutations(h *H, n int) {
+	nbig := 1
+	if h.tier == "thorough" {
+		nbig = 3
+	}
+	for i := 0; i < nbig; i++ {
+		p := h.makeScPair(2*mib+100+h.rng.Intn(50), 10)
+		h.tag("mut:insider-swap-positions")
+		h.Run(Case{Op: "sc_open", A: map[string]string{"keys": ringKeysStr([][]byte{p.victimSk}), "signers": blist([][]byte{p.signerSk[32:]}), "resolver": "none", "input": hx(insiderSwapSc(p)),
+			"buf": "4096", "truth": blist([][]byte{p.msgA, p.msgB}), "honest": hx(p.signerSk[32:]), "mut": "insider-swap-positions"}})
+	}
 	for i := 0; i < n; i++ {
 		la, lb := 1+h.rng.Intn(300), h.rng.Intn(300)
 		p := h.makeScPair(la, lb)
